@@ -28,6 +28,11 @@ fn lattice(_tier: Tier, channels: &[usize]) -> Vec<Cfg> {
                 v.push(Cfg::fast(kind, 3.0, 2.0, 6, d).with_channels(n));
             }
         }
+        // dyadic step with an odd oversampling factor: only some frames fall on the sub-filter grid
+        for kind in [Kind::SI, Kind::SO] {
+            v.push(Cfg::sinc(kind, 2.0, 2.0, 6, 8, 3, Interp::Cubic, Kernel::Dispatch).with_channels(n));
+            v.push(Cfg::sinc(kind, 4.0, 2.0, 5, 8, 2, Interp::Quadratic, Kernel::Dispatch).with_channels(n));
+        }
         for &r in &ratios {
             v.push(Cfg::sinc(Kind::SI, r, 2.0, 8, 8, 2, Interp::Cubic, Kernel::Dispatch).with_channels(n));
             v.push(Cfg::sinc(Kind::SO, r, 2.0, 8, 8, 2, Interp::Linear, Kernel::Dispatch).with_channels(n));
@@ -190,11 +195,24 @@ fn c11_one(acc: &mut Acc, cfg: &Cfg, depth: usize, journal: Option<&JournalFile>
             j.write(&cfg.to_json(), &history_text(h));
         }
         let multi = trace::<f64>(cfg, Signal::Noise, h)?;
+        // the same run with NaN in every 7th sample of the last channel: the other channels
+        // must not notice (a value of one channel that reaches another one with weight zero
+        // is invisible with finite data)
+        let poisoned = if n >= 2 { Some(trace::<f64>(cfg, Signal::NoisePoisonLast(n - 1), h)?) } else { None };
         acc.evals += 1;
         acc.steps += multi.len() as u64;
         for c in 0..n {
             let one = trace::<f64>(&single, Signal::NoiseCh(c), h)?;
             acc.steps += one.len() as u64;
+            if let (Some(p), true) = (&poisoned, c + 1 < n) {
+                for (i, (m, o)) in p.iter().zip(one.iter()).enumerate() {
+                    if m.1.get(c).map(|x| x.as_slice()) != o.1.first().map(|x| x.as_slice()) {
+                        acc.fail("C11", cfg, &h[..=i.min(h.len() - 1)], "channel-affected-by-nan-in-another-channel",
+                            format!("step {}: channel {} of the {}-channel resampler differs from its single-channel twin when channel {} carries NaN samples", i, c, n, n - 1));
+                        break;
+                    }
+                }
+            }
             for (i, (m, o)) in multi.iter().zip(one.iter()).enumerate() {
                 let same_res = m.0 == o.0;
                 let same_out = m.1.get(c).map(|x| x.as_slice()) == o.1.first().map(|x| x.as_slice());
